@@ -3,7 +3,8 @@ import glob, json, os, re
 import vlib
 
 TARGETS = ["Base/Corr.vo", "Base/Num.vo", "C20/Model.vo", "C20/Corr.vo", "C20/Spec.vo", "C20/SpecTest.vo",
-           "C20/ProofsGuard.vo", "C20/ProofsLoud.vo", "C20/ProofsOk.vo", "C20/ProofsTerm.vo", "C20/ProofsRefuted.vo", "C20/Props.vo"]
+           "C20/ProofsGuard.vo", "C20/ProofsLoud.vo", "C20/ProofsOk.vo", "C20/ProofsTerm.vo", "C20/ProofsRefuted.vo",
+           "C20/ModelSvd.vo", "C20/ProofsSvd.vo", "C20/ProofsView.vo", "C20/Props.vo"]
 PROPS = ["C20/Props.v"]
 PROPOSED = os.path.join(vlib.ROOT, "corpus/C20/known_findings_proposed.json")
 
@@ -13,18 +14,26 @@ PARTIAL = (
     "(Spec.guarded lists them) with well-formed operands an invalid use ends in a panic/error before anything is written "
     "to the receiver; for valid use the run is Ok, has the expected result shape and no access leaves [0,len) "
     "(valid_ok_all covers the operations listed in Spec.ok_covered; the remaining ones are tied by the exhaustive small-shape "
-    "replay only). Every call outside Spec.guarded has a `_refuted` lemma with the witness (unchecked Slice, New*Matrix "
-    "from slices, interleaved Permute*, sparse Swap, negative indices, 0-sized MdotM, dyadic Alloc-before-check, "
-    "SetVariable, ignored options, determinant of non-square input). The model abstracts element VALUES away (C03/C10 "
+    "replay only). index() accepts a pair exactly inside the VIEW (index_guard_exact) and At/Swap/SwapRows/SwapColumns with "
+    "an out-of-view index are loud and write nothing (out_of_view_access_is_loud, out_of_view_row_swap_is_loud); the tie runs "
+    "the out-of-view stream (nested slices / transposes, indices inside the parent's storage) for each of the NINE element-type "
+    "instantiations separately. Every call outside Spec.guarded has a `_refuted` lemma with the witness (unchecked Slice, "
+    "New*Matrix from slices, interleaved Permute*, sparse Swap, negative indices, 0-sized MdotM, dyadic Alloc-before-check, "
+    "SetVariable, ignored options, determinant of non-square input); the matching known findings are matched by site AND "
+    "sub-class (empty extent, negative dimension, negative index, option, ...). The model abstracts element VALUES away (C03/C10 "
     "own them); Go int overflow in n*m is not modelled. TERMINATION: for every loop with a coded cap the skeleton "
     "returns within the cap for every body (capped_bound, linesearch_evals_bound: at most MaxEval+2 evaluations); "
-    "default caps are read from the sources on every run (MaxInt defaults are reported as unbounded by default). For "
-    "UNCAPPED loops there is no termination theorem: Coq holds exact non-termination witnesses (QR 2x2 block loop on "
-    "[[0,1],[1,0]], msqrt/msqrtInv on [[-3]], gradientDescent on x^2 with step 1, Tip on a view, the lineSearch "
-    "constraint loop, the rprop/newton backtracking skeleton) and the remaining ones (Francis outer loop, symmetric QR, "
-    "Golub-Kahan SVD, newton backtracking in floats, special-function reductions) are listed as "
-    "'termination not provable, not refuted' and only monitored under a deadline on degenerate inputs. Whether a "
-    "floating-point convergence loop exits is not decidable by this technique (DESIGN 6.2).")
+    "default caps and the loop headers the skeletons mirror are read from the sources on every run (MaxInt defaults are "
+    "reported as unbounded by default). For UNCAPPED loops there is no termination theorem: Coq holds exact non-termination "
+    "witnesses (QR 2x2 block loop on [[0,1],[1,0]], msqrt/msqrtInv on [[-3]], gradientDescent on x^2 with step 1, Tip on a view, "
+    "the lineSearch constraint loop, the rprop/newton backtracking skeleton) and the remaining ones (Francis outer loop, "
+    "symmetric QR, Golub-Kahan SVD, newton backtracking in floats, special-function reductions) are listed as "
+    "'termination not provable, not refuted' and only monitored under a deadline on degenerate inputs. For the SVD outer pass "
+    "a bookkeeping theorem over the coded skeleton holds for every state and body (an exact zero at any diagonal position of "
+    "the active block but the last is not skipped: svd_zero_diagonal_not_skipped); it says nothing about convergence of the "
+    "Golub-Kahan iteration, and the skeleton is tied to svd.go by the shape of its loop headers (regex) and by the degenerate "
+    "runs, not by a value-level replay. Whether a floating-point convergence loop exits is not decidable by this technique "
+    "(DESIGN 6.2).")
 
 LOOPS = [
     # (site, cap kind, status)
@@ -32,7 +41,7 @@ LOOPS = [
     ("qrAlgorithm.qrAlgorithm 2x2 block loop `for { ... QRstep }`", "uncapped", "refuted: qr_block_loop_nonterminating_refuted ([[0,1],[1,0]], exact Q model, period 2)"),
     ("qrAlgorithm.splitMatrix (both loops)", "counting loop <= n", "bounded by construction (for i < n-1; p decreasing)"),
     ("qrAlgorithm_symmetric.qrAlgorithmSymmetric outer loop", "uncapped", "termination not provable, not refuted (deadline monitoring)"),
-    ("svd.golubKahanSVD outer loop `for p, q := 0, 0; q < n;` + splitMatrix", "uncapped", "termination not provable for finite input, refuted on the implementation for NaN/Inf entries (deadline)"),
+    ("svd.golubKahanSVD outer loop `for p, q := 0, 0; q < n;` + splitMatrix", "uncapped", "termination not provable for finite input; refuted on the implementation for NaN/Inf entries and for some inputs whose bidiagonal form has an exactly zero LAST diagonal entry (F-SVD-ZERODIAG-HANG, deadline). Proved for the pass skeleton (ModelSvd.svd_pass, every state/body): an exact zero at any other position of the active block is not skipped (svd_zero_diagonal_not_skipped), the last position is never scanned (svd_zero_last_diagonal_unhandled_refuted), the bound is tight (svd_scan_bound_is_tight)"),
     ("msqrt.mSqrt `for Mnorm(Y0-Y1) > 1e-8`", "uncapped", "refuted: msqrt_nonterminating_refuted ([[-3]], exact Q model, period 2)"),
     ("msqrtInv.mSqrtInv `for Mnorm(X0-X1) > 1e-8`", "uncapped", "refuted: msqrtinv_nonterminating_refuted ([[-3]])"),
     ("lineSearch.lineSearch outer loop + zoom", "capped: MaxEval (default 20; bfgs passes 100)", "proved: linesearch_evals_bound (<= MaxEval+2 evaluations for every oracle)"),
@@ -64,14 +73,26 @@ DEFAULT_CAPS = [
     ("special/constants.go", r"SeriesIterationsMax\s*=\s*(\d+)", "1000000", "special-function series term limit"),
     ("algorithm/qrAlgorithm/qrAlgorithm.go", r"epsilon\s*:=\s*(1e-18)", "1e-18", "qrAlgorithm default epsilon"),
     ("algorithm/msqrt/msqrt.go", r"GetFloat64\(\)\s*>\s*(1e-8)", "1e-8", "msqrt tolerance"),
+    # shape of the svd outer pass modelled by coq/C20/ModelSvd.v (svd_pass): scan bounds, guard, tested entry
+    ("algorithm/svd/svd.go", r"for\s+k\s*:=\s*(p)\s*;\s*k\s*<\s*n-q-1\s*;\s*k\+\+", "p",
+     "svd zero-diagonal scan starts at p (ModelSvd.svd_scan_block p ...)"),
+    ("algorithm/svd/svd.go", r"for\s+k\s*:=\s*p\s*;\s*k\s*<\s*([^;]*?)\s*;\s*k\+\+", "n-q-1",
+     "svd zero-diagonal scan upper bound (ModelSvd.coded_bound = n - q - 1)"),
+    ("algorithm/svd/svd.go", r"p, q = splitMatrix\(B, q\)\s*if\s+(q < n-1)\s*\{", "q < n-1",
+     "svd: the scan / step run only while q < n-1 (ModelSvd.svd_pass_with)"),
+    ("algorithm/svd/svd.go", r"if\s+(B\.At\(k,k\)\.GetFloat64\(\) == 0\.0)\s*\{\s*zeroRow\(B, U, V, k, inSitu\); t = false",
+     "B.At(k,k).GetFloat64() == 0.0", "svd: the scan tests the diagonal entry (k,k) for an exact zero and calls zeroRow(k)"),
+    ("algorithm/svd/svd.go", r"for p, q := 0, 0; (q < n); \{", "q < n", "svd outer loop exit test (uncapped)"),
+    ("algorithm/rprop/rprop.go", r"for\s+i\s*:=\s*0\s*;\s*(i\s*<\s*maxIterations\.Value)\s*;", "i < maxIterations.Value",
+     "rprop main loop is bounded by MaxIterations (capped_bound applies)"),
 ]
 
-RID = {"rprop": 1, "bfgs": 2, "adam": 3, "newton-root": 4, "linesearch": 5, "blahut": 6, "sumseries": 7,
+RID = {"rprop": 1, "bfgs": 2, "adam": 3, "newton-root": 4, "newton-min": 4, "newton-crit": 4, "linesearch": 5, "blahut": 6, "sumseries": 7,
        "sumlogseries": 8, "contfrac": 9}
 # bodies that never leave the loop early: the model predicts exactly `cap` iterations
 EXACT = {("adam", "linear"), ("rprop", "linear"), ("blahut", "uniform"), ("blahut", "zero-channel"),
          ("sumseries", "constant-terms"), ("sumlogseries", "constant-terms"), ("rprop", "rosenbrock")}
-PANIC_IS_LOUD = {"special", "gd"}   # an explicit panic of these routines is a loud failure, which the property allows
+PANIC_IS_LOUD = {"special", "specialnf", "gd"}   # an explicit panic of these routines is a loud failure, which the property allows
 
 
 def findings():
@@ -104,8 +125,11 @@ def known_guard(an, fs):
 
 def known_term(r, fs):
     c = r["case"]
+    alts = []
     for f in fs:
-        m = f.get("match", {})
+        m0 = f.get("match", {})
+        alts += [(f, m) for m in [m0] + list(m0.get("alt", []))]
+    for f, m in alts:
         if m.get("stream") != "term" or c["routine"] not in m.get("routines", []):
             continue
         if m.get("outcome") != r["outcome"]:
@@ -195,6 +219,7 @@ def term_stage(ctx, binary, fs):
     d = json.load(open(tp))
     res = d["results"]
     hist = d["histogram"]
+    special_scan(ctx, set(d.get("special_covered", [])))
     seen = {}
     viol = []
     tcases = []
@@ -283,6 +308,32 @@ def caps_stage(ctx):
                           "%s: expected %s, the source now says %s (the loop inventory of C20 is stale)" % (meaning, exp, val))
     ctx.cov.setdefault("extra", {})["default_caps_read_from_source"] = got
     ctx.cov["extra"]["loops"] = [{"site": a, "cap": b, "status": c} for a, b, c in LOOPS]
+
+
+SPECIAL_EXEMPT = set()   # exported names of special/ deliberately not called by the harness (none)
+
+
+def special_scan(ctx, covered):
+    """every exported function / method of <repo>/special must be a row of the non-finite-argument table of the harness"""
+    names = set()
+    for p in sorted(glob.glob(os.path.join(vlib.REPO, "special", "*.go"))):
+        b = os.path.basename(p)
+        if b.endswith("_test.go") or b.startswith("verif_"):
+            continue
+        for line in open(p):
+            m = re.match(r"func ([A-Z]\w*)\(", line)
+            if m:
+                names.add(m.group(1))
+            m = re.match(r"func \(\w+ \*?([A-Z]\w*)\) ([A-Z]\w*)\(", line)
+            if m:
+                names.add(m.group(1) + "." + m.group(2))
+    missing = sorted(n for n in names if n not in covered and n not in SPECIAL_EXEMPT)
+    ctx.oblige(1, 0 if missing else 1)
+    ctx.cov.setdefault("extra", {})["special_exported"] = {"scanned": sorted(names), "missing": missing}
+    if missing:
+        ctx.violation({"obligation": "every exported function of special/ is exercised with non-finite arguments",
+                       "missing": missing}, False,
+                      "exported function(s) of special/ not covered by the C20 non-finite-argument stream: %s" % ", ".join(missing))
 
 
 def qr_stage(ctx, binary):
